@@ -125,6 +125,13 @@ func configs04(tier string) []xplore.Config {
 	// delivering what the subscriber may see
 	aclCfgs := []xplore.Config{{Name: "server WithACL denying t2 | stream *:[a] user=u | W(t2)=upd a/b;upd a/b, then idle past every time-out", Bound: bound,
 		Data: cfg08{stall: "never", script: []wop{{"upd", "a/b"}, {"upd", "a/b"}}, acl: true}}}
+	// a target removed by one goroutine while another re-creates it and writes
+	// to it (the configuration handler removing, a late manager goroutine
+	// adding): whatever the order, a leaf the cache ends up holding is one the
+	// subscribers' replay holds too - the whole-target delete of the old
+	// incarnation is announced before anything of the new one
+	aclCfgs = append(aclCfgs, xplore.Config{Name: "X=t1 W(t1)=remove || W'(t1)=add;upd a/b W(t2)=upd a/b (no leaf the re-added target holds may be missing from a replay)", Bound: bound,
+		Data: cfg14{w1: []wop{{"remove", ""}}, w2: []wop{{"upd", "a/b"}}, w1b: []wop{{"add", ""}, {"upd", "a/b"}}, missingOnly: true}})
 	// single-operation programs once more with a scheduling point after every
 	// Unlock (the window between "found the queue empty under its lock" and
 	// "started waiting for the wake-up")
@@ -295,6 +302,9 @@ func touched(ws []writer, t, p string) bool {
 func run04(cfg xplore.Config, ch vrt.Chooser, trace bool) (xplore.Outcome, *vrt.Result) {
 	if d8, ok := cfg.Data.(cfg08); ok {
 		return run08acl(cfg, d8, ch, trace)
+	}
+	if _, ok := cfg.Data.(cfg14); ok {
+		return run14x(cfg, ch, trace)
 	}
 	d := cfg.Data.(cfg04)
 	var out xplore.Outcome
